@@ -626,7 +626,20 @@ func (ie IndexExpression) PrettyPrint(out *PrintState) *PrintState {
 	}
 	out.Print(ie.Literal())
 	out.ExpressionPrecedence = LOWEST
-	ie.Index.PrettyPrint(out)
+	bare := false
+	switch ie.Index.(type) {
+	case *Identifier, *StringLiteral, *PostfixExpression: // m.k, m."k", m.v++ read back as written.
+		bare = true
+	}
+	if ie.Token.Type() == token.DOT && !bare {
+		// a.(0) as a.0 would lex as a followed by the float .0; a.(0()) and any other expression likewise need
+		// the parentheses they were necessarily written with.
+		out.Print("(")
+		ie.Index.PrettyPrint(out)
+		out.Print(")")
+	} else {
+		ie.Index.PrettyPrint(out)
+	}
 	if ie.Token.Type() == token.LBRACKET {
 		out.Print("]")
 	}
